@@ -26,13 +26,13 @@ for _pid, _t in {
   "C01": "Generated programs over the core expression/statement grammar (random well-scoped programs in six positions and three layouts, the exhaustive operator table over 17 special atoms, all ordered operator pairs as unparenthesised chains) are executed by TLC on the TLA+ semantics Lang.tla; the VM must print the same lines and end the same way.",
   "C02": "Closure/scoping programs (nested functions to depth 3, captures of parameters, locals, loop items, catch variables, self and module names, closures called after the declaring call returned, interleaved writes) are executed by TLC on Lang.tla (store model: fresh location per executed declaration, one location per for item) and compared with the VM.",
   "C03": "Class programs (hierarchies to depth 3, every overriding pattern, init field sets incl. conditional assignment, invoke / get-then-call / bound methods / super / static / field-shadows-method / undeclared members, call sites visited by sequences of receiver classes, class factories, objects in fields) are executed by TLC on Lang.tla and compared with the VM.",
-  "C04": "Exception programs (try placement in module/function/method/loop/callback with 0-3 parameters and locals, raise 0-2 calls deep, explicit/runtime/native errors, typed/untyped/multiple catch clauses, every way of leaving the try, state printed afterwards, a late raise) are executed by TLC on Lang.tla (nearest dynamically enclosing matching handler, handler deactivated on every exit) and compared with the VM.",
+  "C04": "Exception programs (try placement in module/function/method/loop/callback with 0-3 parameters and locals, raise 0-2 calls deep, explicit/runtime/native errors, typed/untyped/multiple catch clauses, every way of leaving the try, state printed afterwards, a late raise) are executed by TLC on Lang.tla (nearest dynamically enclosing matching handler, handler deactivated on every exit) and compared with the VM; the call frame / handler / nested-loop events of every run are validated by TLC against the contract Unwind.tla (a handler is pushed and popped in its own frame, no frame returns with a handler left, a search takes the innermost handler and only above the frame that called a native, an unwind cuts the frames back to the handler's frame, a nested loop ends at its own depth, at most 255 frames).",
   "C14": "The exhaustive operator table over the special numerals (0/-0/NaN/inf and all other atom kinds), random core programs, class and closure programs, and programs that use special values (NaN, -0, 0, inf, -inf, nil, booleans, strings) as operands of == / !=, as list and tuple members for has / index and as map keys for set / get / has / remove / insert are executed by TLC on Lang.tla once; BOTH builds of the VM (tagged enum and --features nan_boxing) must reproduce the prediction, so any disagreement between the builds is a disagreement of one of them with the spec.",
-  "C18": "Call chains of depth <= 4 over functions, methods, initialisers, static methods and lambdas, optionally passing through the callback of a native that runs on its own call frame (each, reduce, all, any, sort, each over a lazy map) after another such native has run and returned, with a raise / runtime error / native error / exit(n) at each level, caught at each level (incl. non-matching handlers on the way, wrapping with inner errors) or not at all, printed in two line layouts: TLC computes on Lang.tla the printed lines, e.message / e.inner / e.backTrace contents, the traceback frames (innermost first) and the exit status; the VM's stdout, stderr traceback and status must match.",
+  "C18": "Call chains of depth <= 4 over functions, methods, initialisers, static methods and lambdas, optionally passing through the callback of a native that runs on its own call frame (each, reduce, all, any, sort, each over a lazy map) after another such native has run and returned, with a raise / runtime error / native error / exit(n) at each level, caught at each level (incl. non-matching handlers on the way, wrapping with inner errors) or not at all, printed in two line layouts: TLC computes on Lang.tla the printed lines, e.message / e.inner / e.backTrace contents, the traceback frames (innermost first) and the exit status; the VM's stdout, stderr traceback and status must match; frame / handler events are validated against Unwind.tla as for C04.",
   "C19": "Interactive sessions: the top-level statements of generated modules (core, class, closure and exception families) are entered one per prompt line, with lines that fail to compile and lines that raise inserted; TLC runs the same entries on Lang.tla's session semantics (an entry that raises is reported and the session continues with everything defined so far); the prompt's stdout, the sequence of reported error classes and the normal end of the session must match.",
   "C17": "Acyclic module graphs of up to 4 files plus main (every import form, multiplicity, order relative to the module's own definitions; exports of let/fn/class; private state observable only through exported functions; requests for private names, missing files and a module that does not compile) are executed by TLC on Lang.tla's module semantics (body runs once, before the importer continues; an import binds exactly the exported values); the VM run over in-memory files must print the same lines and end the same way.",
   "C10": "Histories of mutations (push, multi-push, insert, remove, pop, index assignment, clear, growth inside helper functions and methods, map set/remove, field writes) applied through randomly chosen aliases of 1-3 subjects (lists of 0-4 elements so that growth crosses the capacity, maps, instances) whose aliases live in variables, list / nested list / tuple / map elements, fields and closures, at module level or in a function's locals; interleaved with == / != between alias paths, map has/get/index/set keyed by the subject, list and tuple has/index, and prints through other aliases. TLC runs the same program on Lang.tla, where an object is a heap id that never changes.",
-  "C11": "Histories of list, tuple, map and string operations with boundary, negative, fractional and wrongly typed arguments, each followed by a print of the receiver, and iterator pipelines (sources list/tuple/string/times/split, adaptors map/filter/take/skip/zip/chain with logging, raising and mutating callbacks, consumers list/into/reduce/each/all/any/first/last/for/next) are executed by TLC on Lang.tla's native models (finite sequence, finite map, code-point strings, pull-based lazy streams); each operation sits in a catch chain that names the error class, so the class of every raised error, the unchanged receiver and the order of callback effects must all match.",
+  "C11": "Histories of list, tuple, map and string operations with boundary, negative, fractional and wrongly typed arguments, each followed by a print of the receiver, and iterator pipelines (sources list/tuple/string/times/split, adaptors map/filter/take/skip/zip/chain with logging, raising and mutating callbacks, consumers list/into/reduce/each/all/any/first/last/for/next) are executed by TLC on Lang.tla's native models (finite sequence, finite map, code-point strings, pull-based lazy streams); each operation sits in a catch chain that names the error class, so the class of every raised error, the unchanged receiver and the order of callback effects must all match; frame / handler / nested-loop events (errors crossing native callbacks) are validated against Unwind.tla as for C04.",
 }.items():
     CHECKS[_pid] = dict(level="model_checking", design="5/" + _pid, text=_t, note=_lang_note,
         technique="explicit TLA+ executable semantics (Lang.tla, CEK machine) run by TLC on every generated program to predict output and status; predictions replayed on the real VM (mode G)")
@@ -56,7 +56,7 @@ CHECKS["C09"] = dict(level="model_checking", design="5/C09", note=_gc_note,
 
 CHECKS["C16"] = dict(level="model_checking", design="5/C16",
    technique="TLA+ specification Natives.tla of the signature gate in front of every built-in, over the signature table read from the running VM; TLC enumerates every call (native x argument kinds) and decides the gate's verdict; each call is replayed on the VM with concrete values (conformance of the verdict, no host failure); program families with outcomes known by construction",
-   text="Every built-in of the global module and the standard library (473 natives) is called with every vector of up to 3 (thorough: 4) arguments over 15 value kinds, with boundary values per kind; TLC decides on Natives.tla whether the gate refuses the call (arity / kind) or the body runs, the VM must agree and must never panic, abort, fault or hang. Generated programs: unbounded recursion through cycles of 22 kinds of call link (functions, closures, methods, initialisers, bound methods, .call, each iterator adaptor's callback, sort, interpolation, super, index calls) on the main fiber, a launched fiber and under a native callback must end in a catchable stack-overflow error; non-callables called, launched and passed as callbacks; non-errors raised; 20 kinds of bad superclass; error classes with odd initialisers raised uncaught, caught, wrapped and under callbacks; errors while handling errors; exit() at every depth; launch of every callable kind; str() that returns a non-string, raises or recurses at every site that calls it; self-containing values.",
+   text="Every built-in of the global module and the standard library (473 natives) is called with every vector of up to 3 (thorough: 4) arguments over 15 value kinds, with boundary values per kind; TLC decides on Natives.tla whether the gate refuses the call (arity / kind) or the body runs, the VM must agree and must never panic, abort, fault or hang. Generated programs: unbounded recursion through cycles of 22 kinds of call link (functions, closures, methods, initialisers, bound methods, .call, each iterator adaptor's callback, sort, interpolation, super, index calls) on the main fiber, a launched fiber and under a native callback must end in a catchable stack-overflow error; non-callables called, launched and passed as callbacks; non-errors raised; 20 kinds of bad superclass; error classes with odd initialisers raised uncaught, caught, wrapped and under callbacks; errors while handling errors; exit() at every depth; launch of every callable kind; str() that returns a non-string, raises or recurses at every site that calls it; self-containing values; module names used before their definition ran. The frame / handler / nested-loop events of every family program are validated against Unwind.tla (frame limit, errors crossing natives, launch splitting a frame off).",
    note="Trusts the natives dump hook, the error messages of the gate as its observable verdict, TLC. Values per kind are drawn from fixed pools (boundary numbers, multi-byte strings, empty and grown collections). Debug build in quick, debug and release in thorough. Two known findings (blocking channel operation under a native callback; collector recursion on very deep structures) are listed in known_findings.json.")
 
 CHECKS["C15"] = dict(level="model_checking", design="5/C15",
